@@ -23,14 +23,15 @@ PROPS = {
         "assumptions": ["64-bit usize", "configured multihash capacity S <= 255", "A-HASH: the model's hash oracle is the table the harness computed with multihash-codetable"],
     },
     "C19": {
-        "engines": [{"name": "convert", "n": {"quick": 1500, "thorough": 40000}, "profiles": ["debug"]}],
+        "engines": [{"name": "convert", "n": {"quick": 1500, "thorough": 40000}, "profiles": ["debug"]},
+                    {"name": "client", "n": {"quick": 400, "thorough": 12000}, "profiles": ["debug"], "oracle": "oracle_C03", "shard": 15}],
         "rule": "engine convert: digest lengths 0..=64 exhaustively x source capacities {16,32,64,128} x target capacities "
                 "{0,1,16,20,31,32,33,48,63,64,65,128} (const generics, compiled grid), v0/v1, boundary codecs and hash codes; random "
                 "lengths up to 128 beyond. Every case is non-trivial (both convert_cid, the conversion back and convert_multihash are observed); "
                 "distinct = distinct input terms.",
         "exhaustive_note": "digest lengths 0..=64 x 4 source x 12 target capacities",
         "assumptions": ["64-bit usize", "digest length <= 255 (guard stated in the theorems; C19_truncation_beyond_255_refuted shows why)",
-                        "Behaviour::get half of C19 is covered by the client model (Props_C03) once integrated"],
+                        "Behaviour::get half of C19: theorems in Props_C03 (get on an unconvertible CID), engine client with oracle_C03 (an InvalidMultihashSize error exactly for the queries whose CID does not convert; every store lookup is for the CID that was asked for, version included; scripted store failures take every variant of blockstore::Error)"],
     },
     "C20": {
         "engines": [{"name": "builder", "n": {"quick": 400, "thorough": 20000}, "profiles": ["debug"]}],
@@ -42,13 +43,15 @@ PROPS = {
         "assumptions": ["A-MSS: multistream-select negotiates a protocol iff the names are byte-equal (C20_isolation is stated under it; traffic between real swarms is not exercised by this check)"],
     },
     "C18": {
-        "engines": [{"name": "hasher", "n": {"quick": 1500, "thorough": 40000}, "profiles": ["debug"]}],
+        "engines": [{"name": "hasher", "n": {"quick": 1500, "thorough": 40000}, "profiles": ["debug"]},
+                    {"name": "incoming", "n": {"quick": 2000, "thorough": 40000}, "profiles": ["debug"], "oracle": "oracle"}],
         "rule": "engine hasher: every registration order of <= 4 (quick) / 5 (thorough) recording scripted hashers x 5 answer kinds "
                 "(unknown-code, ok, custom, custom-fatal, invalid-size) for a built-in code, a custom code and a multi-byte code; random tables with "
                 "overlapping code sets, capacities 64/32/20 and oversized digests. Observed: the result and the order in which hashers were consulted. "
                 "Non-trivial = at least one registered hasher.",
         "exhaustive_note": "all sequences of <= 4 (quick) / 5 (thorough) hashers over 5 answer kinds, 3 codes",
-        "assumptions": ["the error contract at message level (skip vs close) is proved about Incoming.process_message (Props_C16) and exercised by the incoming engine"],
+        "assumptions": ["the error contract at message level (skip vs close) is proved about Incoming.process_message (Props_C16) and exercised by the incoming engine",
+                        "engine incoming (see C16): every received block — whatever the form of its prefix, CIDv0 included — must be hashed through the table: the expected answer is combined from the individual scripted hashers and the built-in table by the documented order in the harness (reference_hash), not by the table under test"],
     },
     "C16": {
         "engines": [{"name": "incoming", "n": {"quick": 3000, "thorough": 40000}, "profiles": ["debug"]},
